@@ -176,6 +176,20 @@ pub fn generate(rng: &mut Rng, tier: Tier) -> Plan {
     nodes.sort_by_key(|n| n.ts);
     nodes.dedup_by_key(|n| n.ts);
     let n = nodes.len();
+    // sometimes a user variable carries the very name a generated tag would have
+    if kind > 0 && rng.chance(0.04) {
+        let j = rng.below(n as u64) as usize;
+        let i = rng.below(n as u64) as usize;
+        let tag = format!("{}{}", id, j);
+        match &mut nodes[i].num {
+            Num::D { g, .. } | Num::D2 { g, .. } => {
+                if !g.iter().any(|(nm, _)| nm == &tag) {
+                    g[0].0 = tag;
+                }
+            }
+            _ => {}
+        }
+    }
     // queries: node dates, midpoints, two interior points per interval, before and after
     let mut queries: Vec<i64> = Vec::new();
     for w in nodes.windows(2) {
